@@ -10,7 +10,7 @@ use serde_json::{json, Value};
 pub struct P;
 pub static C12: P = P;
 
-pub const ATOMS: [&str; 14] = ["", "ab", "ab cd", "  ab", "ab  ", "a\tb", "\tab", "ab\t", "中a 中", "abcdefgh", "a   b", " ", "abcdefg\tx", "中中中中中abcd"];
+pub const ATOMS: [&str; 16] = ["", "ab", "ab cd", "  ab", "ab  ", "a\tb", "\tab", "ab\t", "中a 中", "abcdefgh", "a   b", " ", "abcdefg\tx", "中中中中中abcd", "abcdefg hi j kl", "ab cd ef gh"];
 const CTXS: [(&str, &str, &str, usize); 3] = [("top", "<pre>", "</pre>", 0), ("li", "<ul><li><pre>", "</pre></li></ul>", 2), ("quote", "<blockquote><pre>", "</pre></blockquote>", 2)];
 const VARIANTS: [&str; 6] = ["text", "first word of each line in <b>", "lines separated by <br>", "lines separated by newline + <br> (a blank line between)", "lines separated by <br> + newline", "tail of each word in <i> (tag boundary inside the word)"];
 
@@ -463,7 +463,7 @@ impl Scope for S {
     }
     fn info(&self) -> Info {
         Info {
-            rule: "every pre block of up to maxk lines over 14 line shapes (empty, words, leading/trailing/interior spaces, tabs at start/middle/end and across column 8, wide characters, a full-width word, spaces only) x {top level, list item, quote} x {plain text, first word in <b>, <br> / newline+<br> / <br>+newline as separators} x every width; plus every line that is a sequence of <= 4 (thorough: 5) tokens from {a, bc, one space, two spaces, tab, wide character}, alone and followed by a second line; non-trivial = some source line does not fit".into(),
+            rule: "every pre block of up to maxk lines over 16 line shapes (empty, words, a long word followed by short ones, leading/trailing/interior spaces, tabs at start/middle/end and across column 8, wide characters, a full-width word, spaces only) x {top level, list item, quote} x {plain text, first word in <b>, <br> / newline+<br> / <br>+newline as separators} x every width; plus every line that is a sequence of <= 4 (thorough: 5) tokens from {a, bc, one space, two spaces, tab, wide character}, alone and followed by a second line; non-trivial = some source line does not fit".into(),
             bounds: json!({"line_shapes": ATOMS, "max_lines": self.maxk, "contexts": ["top", "li", "quote"], "variants": VARIANTS, "widths": self.tier.pick("1..=18", "1..=60 (<=2 lines), 1..=30 (3 lines), 1..=18 (4 lines)")}),
             assumptions: vec!["rich decorator; tab stops every 8 columns counted from the start of the block's own width".into()],
         }
